@@ -1,7 +1,7 @@
 import RbV.Model.Poa
 import RbV.Spec.PoaGraph
 /-!
-# The mirror model of `add_alignment` keeps the graph acyclic (for rank-respecting operation lists)
+# The mirror model of `add_alignment` keeps the graph acyclic for rank-respecting operation lists
 
 Hypotheses: the old graph has a rank function `rk` increasing along every edge (i.e. it is acyclic), and the
 operation list visits the nodes it names in increasing rank with enough room for the nodes created in
@@ -9,8 +9,8 @@ between (`bodyB`; this is what "the traceback walks the graph in topological ord
 topological numbering scaled by more than the number of operations).  Conclusion: the new graph again has a
 rank function, hence no cycle.  `Ins(None)`/`Match(None)` (query symbols inserted before the head, which then
 get an edge *into* the old head) are covered: the inserted chain is ranked from 0 and must stay below the head.
-What is not proved is that `traceLoop` only emits such lists — see the comment at the end; the driver
-evaluates `bodyB` on every observed operation list instead (tag `acyclic-cert`).
+That `traceLoop` only emits such lists is proved in `RbV/Lemmas/PoaTrace.lean`; the driver additionally
+evaluates `bodyB` on every observed operation list of the real code (tag `acyclic-cert`).
 -/
 namespace RbV.Poa.Model
 open RbV.Poa
@@ -209,14 +209,13 @@ theorem acyclic_of_rankOK {g : G} {R : List Nat} {rk : Nat → Nat} {n0 : Nat} (
   obtain ⟨e', he', rfl⟩ := he
   exact (h.edges e' he').2.2
 
-/-- `addAlignment` keeps the graph acyclic for every operation list that names nodes in increasing rank
-(`bodyB`), starting from the rank of the head.  **Partial** with respect to the full claim only in that the
-hypothesis `bodyB` is not derived from `traceLoop` (it is evaluated by the driver on the observed lists). -/
-theorem addAlignment_acyclic_partial (g : G) (rk : Nat → Nat) (ops : List POp) (seq : List Nat)
+/-- `addAlignment` along an operation list that names nodes in increasing rank (`bodyB`) yields a graph with a
+rank function again (which ranks the old nodes as before) -/
+theorem addAlignment_rankOK (g : G) (rk : Nat → Nat) (ops : List POp) (seq : List Nat)
     (hrk : ∀ e ∈ g.es, e.1 < g.labels.length ∧ e.2.1 < g.labels.length ∧ rk e.1 < rk e.2.1)
     (hhead : (topo g.labels.length g.es).headD 0 < g.labels.length)
     (hbody : bodyB rk g.labels.length ((topo g.labels.length g.es).headD 0) (rk ((topo g.labels.length g.es).headD 0)) false ops = true) :
-    Acyclic (plain (addAlignment g ops seq).es) := by
+    ∃ R, RankOK (addAlignment g ops seq) R rk g.labels.length := by
   unfold addAlignment
   generalize (topo g.labels.length g.es).headD 0 = h at *
   have hR : RankOK g ((List.range g.labels.length).map rk) rk g.labels.length := by
@@ -228,8 +227,18 @@ theorem addAlignment_acyclic_partial (g : G) (rk : Nat → Nat) (ops : List POp)
       simp [List.getD_eq_getElem?_getD, h1, h2, h3]
   have hh : ((List.range g.labels.length).map rk).getD h 0 ≤ rk h := by
     simp [List.getD_eq_getElem?_getD, hhead]
-  obtain ⟨R', hR'⟩ := foldl_addStep_rank h seq rk g.labels.length hhead ops
+  exact foldl_addStep_rank h seq rk g.labels.length hhead ops
     { g := g, prev := h } _ (rk h) false hR (by simpa using hhead) hh rfl hbody
+
+/-- `addAlignment` keeps the graph acyclic for every operation list that names nodes in increasing rank
+(`bodyB`), starting from the rank of the head.  (That the model's traceback only produces such lists is
+`traceLoop_bodyB` in `RbV/Lemmas/PoaTrace.lean`; the two are combined in `RbV/Lemmas/PoaHistory.lean`.) -/
+theorem addAlignment_acyclic_of_bodyB (g : G) (rk : Nat → Nat) (ops : List POp) (seq : List Nat)
+    (hrk : ∀ e ∈ g.es, e.1 < g.labels.length ∧ e.2.1 < g.labels.length ∧ rk e.1 < rk e.2.1)
+    (hhead : (topo g.labels.length g.es).headD 0 < g.labels.length)
+    (hbody : bodyB rk g.labels.length ((topo g.labels.length g.es).headD 0) (rk ((topo g.labels.length g.es).headD 0)) false ops = true) :
+    Acyclic (plain (addAlignment g ops seq).es) := by
+  obtain ⟨R', hR'⟩ := addAlignment_rankOK g rk ops seq hrk hhead hbody
   exact acyclic_of_rankOK hR'
 
 /-- the certificate the driver evaluates implies acyclicity of the model's result -/
@@ -237,12 +246,7 @@ theorem acyclic_of_cert (g : G) (ops : List POp) (seq : List Nat) (h : acyclicCe
     Acyclic (plain (addAlignment g ops seq).es) := by
   simp only [acyclicCert, Bool.and_eq_true, decide_eq_true_eq, List.all_eq_true] at h
   obtain ⟨⟨hhead, hes⟩, hbody⟩ := h
-  exact addAlignment_acyclic_partial g _ ops seq
+  exact addAlignment_acyclic_of_bodyB g _ ops seq
     (fun e he => by have := hes e he; simpa [and_assoc] using this) hhead hbody
-
-/- Missing for the full statement ("for every operation list produced by `traceLoop` on an acyclic graph"):
-   `traceLoop` only emits lists satisfying `bodyB` for `rk v = K · (1 + position of v in topo)`, K > |ops|:
-   every `Match(Some((p, v)))`/`Del(Some((p, _)))` moves along an edge `p → v` of the graph, so the named nodes
-   come in topological order, and fewer than K nodes are created between two of them. -/
 
 end RbV.Poa.Model
